@@ -9,6 +9,7 @@ import FP.Proofs.C10IgnoreMPE
 import FP.Proofs.C10Witness
 import FP.Proofs.C10Augment
 import FP.Proofs.C10Subset
+import FP.Proofs.C10SubsetComplete
 import FP.Proofs.C10Example
 /-!
 # C10 — constraints, ignored elements and extra start/end nodes behave as documented
@@ -24,8 +25,8 @@ import FP.Proofs.C10Example
   `scale_zero_eq_ignore` (+ `_kmpe`), `ignore_relaxes_*`: ignoring an edge deletes exactly that edge's block.
 * T4 `augment_starts_ends` and corollaries: additional starts/ends enlarge the route set by exactly
   the routes starting/ending there.
-* T5 `used_indicator_exact`, `subset_constraint_honoured`: the cyclic analogue over the *set* of a
-  constraint's edges.
+* T5 `used_indicator_exact`, `subset_constraint_honoured`, `subset_constraint_complete`,
+  `subset_block_exact`: the cyclic analogue of T1/T2 over the *set* of a constraint's edges.
 -/
 namespace FP.Props.C10
 open FP FP.Spec
@@ -276,17 +277,37 @@ theorem subset_constraint_honoured (s : STGraph) (c : WalkCfg) (ub : Edge → Ra
         ((c.constraints[j].eraseDups.countP (fun e => decide (1 ≤ a (edgeVar e i))) : Nat) : Rat) :=
   FP.subset_constraint_honoured s c ub a hsat j hj hedges
 
-/-- not proven: completeness for the subset block (choice of `r` and `used_edge` for given walks),
-the analogue of `constraint_complete`; the ingredients are `used_indicator_complete` and the
-argument of `subpath_rows_complete`. -/
-def subset_constraint_complete_Statement : Prop :=
-  ∀ (s : STGraph) (c : WalkCfg) (ub : Edge → Rat) (a : Asg) (resp : Nat → Nat),
-    Sat a (encodeWalks s c ub) →
-    (∀ j (hj : j < c.constraints.length), resp j < c.k ∧
+/-- **Completeness of the subset block** (the analogue of `constraint_complete`; formerly the unproven
+`subset_constraint_complete_Statement`, which is true as it was written). Any satisfying assignment of
+`_encode_walks` in which, for every subset constraint `j` (its edges are edges of the graph, as
+`_check_valid_subset_constraints` enforces), the layer `resp j` traverses at least
+`|set(constraint_j)| · coverage` of the constraint's distinct edges becomes a satisfying assignment of
+`create_solver_and_walks` by the explicit choice `FP.subsetAsg`: `used_edge(e,i) = [edge(e,i) ≥ 1]`,
+`r(i,j) = [layer i covers constraint j to the fraction]`; every column other than `r` / `used_edge` keeps its
+value. No hypothesis was added: the coverage fraction is arbitrary, and the row `edge ≤ ub·used_edge` follows
+from the column bound `edge(e,i) ≤ ub e`, which is part of `Sat a (encodeWalks s c ub)`. -/
+theorem subset_constraint_complete (s : STGraph) (c : WalkCfg) (ub : Edge → Rat) (a : Asg) (resp : Nat → Nat)
+    (hsat : Sat a (encodeWalks s c ub))
+    (hresp : ∀ j (hj : j < c.constraints.length), resp j < c.k ∧
       (∀ e ∈ c.constraints[j], e ∈ s.g.edges) ∧
       (c.constraints[j].eraseDups.length : Rat) * c.coverage ≤
-        ((c.constraints[j].eraseDups.countP (fun e => decide (1 ≤ a (edgeVar e (resp j)))) : Nat) : Rat)) →
-    ∃ a', Sat a' (walkCore s c ub) ∧ ∀ e i, a' (edgeVar e i) = a (edgeVar e i)
+        ((c.constraints[j].eraseDups.countP (fun e => decide (1 ≤ a (edgeVar e (resp j)))) : Nat) : Rat)) :
+    ∃ a', Sat a' (walkCore s c ub) ∧ (∀ e i, a' (edgeVar e i) = a (edgeVar e i)) ∧
+      ∀ v, (∀ i j, v ≠ rVar i j) → (∀ e i, v ≠ usedVar e i) → a' v = a v :=
+  ⟨_, FP.c10s_subset_complete_proof s c ub a resp hsat hresp⟩
+
+/-- **The subset block is exact** (`subset_constraint_honoured` + `subset_constraint_complete`): the
+feasible set of `create_solver_and_walks`, projected to the columns other than `r` / `used_edge`, is the
+feasible set of `_encode_walks` intersected with "every subset constraint is covered, to the requested
+fraction of its distinct edges, by some layer". -/
+theorem subset_block_exact (s : STGraph) (c : WalkCfg) (ub : Edge → Rat) (a : Asg)
+    (hedges : ∀ con ∈ c.constraints, ∀ e ∈ con, e ∈ s.g.edges) :
+    (∃ a', Sat a' (walkCore s c ub) ∧
+        ∀ v, (∀ i j, v ≠ rVar i j) → (∀ e i, v ≠ usedVar e i) → a' v = a v) ↔
+      (Sat a (encodeWalks s c ub) ∧ ∀ j (hj : j < c.constraints.length), ∃ i, i < c.k ∧
+        (c.constraints[j].eraseDups.length : Rat) * c.coverage ≤
+          ((c.constraints[j].eraseDups.countP (fun e => decide (1 ≤ a (edgeVar e i))) : Nat) : Rat)) :=
+  FP.c10s_subset_exact_proof s c ub a hedges
 
 /-! ## non-vacuity -/
 
@@ -303,5 +324,16 @@ example : ∃ i, i < cfgC.k ∧ (withR PathCoreExample.asg (fun _ => 0)) (rVar i
 example := FP.C10Example.ignore_example
 example := FP.C10Example.route_example
 example := FP.C10Example.min1_example
+
+open FP.C10SubsetExample in
+/-- T5 completeness on the walk `source, s, a, a, a, t, sink` with the subset constraint `[(a,a), (a,t), (a,a)]`
+(two distinct edges): the hypotheses are met, and `subset_constraint_honoured` applies to the result -/
+example : ∃ a', Sat a' (walkCore WalkCoreExample.st cfgS WalkCoreExample.ub) ∧
+    (∀ e i, a' (edgeVar e i) = WalkCoreExample.asg (edgeVar e i)) ∧
+    ∀ v, (∀ i j, v ≠ rVar i j) → (∀ e i, v ≠ usedVar e i) → a' v = WalkCoreExample.asg v :=
+  subset_constraint_complete WalkCoreExample.st cfgS WalkCoreExample.ub WalkCoreExample.asg (fun _ => 0)
+    sat_enc resp_ok
+
+example := FP.C10SubsetExample.ext_values
 
 end FP.Props.C10
